@@ -193,41 +193,50 @@ pub struct UserEdges {
 }
 
 pub fn user_edges(n: usize, calls: &[(usize, usize, Kind)]) -> UserEdges {
+    // same model as ever (accept iff from != to and `to` does not reach `from`; a
+    // repeated pair only updates the kind), with an index and adjacency lists so
+    // that call sequences of 10^5 edges stay cheap
     let mut edges: Vec<(usize, usize, Kind)> = Vec::new();
+    let mut index: std::collections::HashMap<(usize, usize), usize> = std::collections::HashMap::new();
+    let mut adj: Vec<Vec<usize>> = vec![vec![]; n];
     let mut accepted = Vec::with_capacity(calls.len());
+    let mut seen = vec![0u32; n];
+    let mut stamp = 0u32;
     for &(a, b, k) in calls {
         if a == b {
             accepted.push(false);
             continue;
         }
-        if let Some(e) = edges.iter_mut().find(|e| e.0 == a && e.1 == b) {
-            e.2 = k;
+        if let Some(&i) = index.get(&(a, b)) {
+            edges[i].2 = k;
             accepted.push(true);
             continue;
         }
         // does b reach a?
-        if reaches(n, &edges, b, a) {
+        stamp += 1;
+        if reaches(&adj, &mut seen, stamp, b, a) {
             accepted.push(false);
         } else {
+            index.insert((a, b), edges.len());
             edges.push((a, b, k));
+            adj[a].push(b);
             accepted.push(true);
         }
     }
     UserEdges { edges, accepted }
 }
 
-fn reaches(n: usize, edges: &[(usize, usize, Kind)], from: usize, to: usize) -> bool {
-    let mut seen = vec![false; n];
+fn reaches(adj: &[Vec<usize>], seen: &mut [u32], stamp: u32, from: usize, to: usize) -> bool {
     let mut stack = vec![from];
-    seen[from] = true;
+    seen[from] = stamp;
     while let Some(v) = stack.pop() {
         if v == to {
             return true;
         }
-        for e in edges {
-            if e.0 == v && !seen[e.1] {
-                seen[e.1] = true;
-                stack.push(e.1);
+        for &c in &adj[v] {
+            if seen[c] != stamp {
+                seen[c] = stamp;
+                stack.push(c);
             }
         }
     }
